@@ -28,15 +28,18 @@ LAYOUTS = {
 # ---------------------------------------------------------------------------------------------- container
 def encode_container(magic: bytes, version: int, l4d2: bool, map_revision: int,
                      lumps: dict[int, tuple[int, bytes, bool]],
-                     game_lumps: list[tuple[bytes, int, int, bytes]], order: list[int] | None = None) -> bytes:
-    """lumps: index -> (lump version, data, lzma?); game_lumps: (id, flags, version, data), flags&1 = lzma."""
+                     game_lumps: list[tuple[bytes, int, int, bytes]], order: list[int] | None = None,
+                     align: bool = True) -> bytes:
+    """lumps: index -> (lump version, data, lzma?); game_lumps: (id, flags, version, data), flags&1 = lzma.
+    align=False with the default order reproduces the layout BSP.save is expected to write: lumps in index order with
+    the pakfile last, no padding, one NUL between game lumps, a dummy directory entry after a compressed last one."""
     from srctools.binformat import compress_lzma
     buf = io.BytesIO()
     buf.write(struct.pack('<4si', magic, version))
     buf.write(bytes(16 * LUMP_COUNT))
     buf.write(struct.pack('<i', map_revision))
     table: dict[int, tuple[int, int, int, int]] = {}
-    for idx in (order or list(range(LUMP_COUNT))):
+    for idx in (order or [i for i in range(LUMP_COUNT) if i != 40] + [40]):
         ver, data, comp = lumps.get(idx, (0, b'', False))
         if idx == 35:
             start = buf.tell()
@@ -59,14 +62,14 @@ def encode_container(magic: bytes, version: int, l4d2: bool, map_revision: int,
             buf.seek(end)
             table[idx] = (start, end - start, ver, 0)
             continue
-        if comp and data:
+        if comp and (data or not align) and idx != 40:
             payload = compress_lzma(data)
             table[idx] = (buf.tell(), len(payload), ver, len(data))
         else:
             payload = data
             table[idx] = (buf.tell(), len(payload), ver, 0)
         buf.write(payload)
-        if idx != 40:
+        if idx != 40 and align:
             buf.write(bytes(-buf.tell() % 4))   # lumps are 4-aligned in real files (gaps are legal)
     end = buf.tell()
     buf.seek(8)
@@ -78,6 +81,13 @@ def encode_container(magic: bytes, version: int, l4d2: bool, map_revision: int,
 
 
 def decode_container(blob: bytes) -> dict[str, Any]:
+    try:
+        return _decode_container(blob)
+    except Exception as e:      # noqa: BLE001 - a malformed container is an observation, not a crash
+        return {'error': f'{type(e).__name__}: {e}'}
+
+
+def _decode_container(blob: bytes) -> dict[str, Any]:
     """Independent reader of the container (no srctools code except LZMA decompression)."""
     from srctools.binformat import decompress_lzma
     magic, version = struct.unpack_from('<4si', blob, 0)
@@ -330,4 +340,5 @@ def synth(rng: random.Random, layout: str = 'v20', *, compress: tuple = (), orig
     desc = dict(layout=layout, compress=sorted(compress), compress_game=sorted(compress_game), origin_vertex=origin_vertex,
                 faceids=faceids, water=water, overlay_aux=overlay_aux, vis=vis, n_extra=n_extra, extra_game=extra_game,
                 fractional_bounds=fractional_bounds, detail_shapes=detail_shapes, hdr=hdr, map_revision=rev, size=len(blob))
+    desc['_parts'] = dict(magic=magic, version=version, l4d2=l4d2, map_revision=rev, lumps=lumps, games=games)
     return blob, desc
